@@ -155,4 +155,36 @@ def doEI (d : Dict) : Option LTFields :=
            imagemask := getAny d [kIM, kImageMask] }
   | _, _ => none
 
+def nDeviceGray : Bytes := [68, 101, 118, 105, 99, 101, 71, 114, 97, 121]
+def nDeviceRGB : Bytes := [68, 101, 118, 105, 99, 101, 82, 71, 66]
+def nDeviceCMYK : Bytes := [68, 101, 118, 105, 99, 101, 67, 77, 89, 75]
+def nG : Bytes := [71]
+def nRGB : Bytes := [82, 71, 66]
+
+def hasName (cs : List (Option Val)) (n : Bytes) : Bool := cs.any (fun v => v == some (.name n))
+
+/-- `LITERAL_DEVICE_RGB in image.colorspace or LITERAL_INLINE_DEVICE_RGB in …`, then the same for gray:
+    membership anywhere in the list (so `[/Indexed /DeviceRGB …]` counts as RGB — open finding). -/
+def csClass (cs : List (Option Val)) : Image.CS :=
+  if hasName cs nDeviceRGB then .rgb else if hasName cs nRGB then .inlRgb
+  else if hasName cs nDeviceGray then .gray else if hasName cs nG then .inlGray
+  else if hasName cs nDeviceCMYK then .cmyk
+  else match cs with
+    | [] => .none
+    | [none] => .none
+    | _ => .other
+
+/-- `LITERAL_DEVICE_CMYK in image.colorspace`. -/
+def cmykMember (cs : List (Option Val)) : Bool := cs.any (fun v => v == some (.name nDeviceCMYK))
+
+/-- The view `ImageWriter.export_image` takes of an LTImage with these fields (non-negative integer
+    width, height, bits — anything else raises inside the writer and is outside the model). -/
+def toImgIn (f : LTFields) (filters : List Image.Flt) (name data : Bytes) : Option Image.ImgIn :=
+  match f.srcW, f.srcH, f.bits with
+  | .int w, .int h, .int b =>
+    if 0 ≤ w ∧ 0 ≤ h ∧ 0 ≤ b then
+      some ⟨filters, csClass f.colorspace, cmykMember f.colorspace, b.toNat, w.toNat, h.toNat, name, data⟩
+    else none
+  | _, _, _ => none
+
 end PdfVerif.InlineDict
